@@ -7,11 +7,17 @@ import (
 
 	"github.com/cosmos/cosmos-sdk/codec"
 	sdk "github.com/cosmos/cosmos-sdk/types"
+	authtypes "github.com/cosmos/cosmos-sdk/x/auth/types"
+	"github.com/cosmos/cosmos-sdk/x/feegrant"
 	paramproposal "github.com/cosmos/cosmos-sdk/x/params/types/proposal"
 
 	"github.com/teleport-network/teleport/x/aggregate"
 	aggregatetypes "github.com/teleport-network/teleport/x/aggregate/types"
 	rvtypes "github.com/teleport-network/teleport/x/rvesting/types"
+	"github.com/teleport-network/teleport/x/xibc"
+	clienttypes "github.com/teleport-network/teleport/x/xibc/core/client/types"
+	packettypes "github.com/teleport-network/teleport/x/xibc/core/packet/types"
+	xibctypes "github.com/teleport-network/teleport/x/xibc/types"
 
 	"verif/internal/ev"
 	"verif/internal/world"
@@ -20,95 +26,117 @@ import (
 // paramsRun: every parameter change is submitted (dry run) and executed through the real gov router in a real
 // block; then real blocks follow. Nothing outside the harness's own observation recovers a panic.
 func paramsRun(r *ev.Run, changes []paramproposal.ParamChange, pools [][2]int64) (evals, nontrivial int64) {
-	for _, pool := range pools {
-		init := sdk.NewCoins()
-		if pool[0] > 0 {
-			init = init.Add(sdk.NewInt64Coin("aaa", pool[0]))
-		}
-		if pool[1] > 0 {
-			init = init.Add(sdk.NewInt64Coin("bbb", pool[1]))
-		}
-		funder := world.NewAccount("funder")
-		base := world.NewChain("teleport_9000-10", world.StartTime, world.Options{
-			Accounts:   []string{"funder"},
-			ExtraCoins: map[string]sdk.Coins{"funder": sdk.NewCoins(sdk.NewInt64Coin("aaa", 9), sdk.NewInt64Coin("bbb", 9))},
-			GenesisMod: func(cdc codec.Codec, gs map[string]json.RawMessage) {
-				g := rvtypes.DefaultGenesisState()
-				g.Params.EnableVesting = true
-				g.Params.PerBlockReward = sdk.NewCoins(sdk.NewInt64Coin("aaa", 1))
-				if !init.IsZero() {
-					g.From = funder.Acc.String()
-					g.InitReward = init
-				}
-				gs[rvtypes.ModuleName] = cdc.MustMarshalJSON(g)
-			},
-		})
-		now := world.StartTime
-		for _, ch := range changes {
-			c := base.Clone()
-			t := now
-			prop := paramproposal.NewParameterChangeProposal("t", "d", []paramproposal.ParamChange{ch})
-			evals++
-			if prop.ValidateBasic() != nil {
-				r.Outcome("parameter change refused by stateless validation")
-				continue
+	for _, mode := range []string{"genesis", "fee grant"} {
+		for _, pool := range pools {
+			init := sdk.NewCoins()
+			if pool[0] > 0 {
+				init = init.Add(sdk.NewInt64Coin("aaa", pool[0]))
 			}
-			handler := c.App.GovKeeper.Router().GetRoute(prop.ProposalRoute())
-			accepted := false
-			var pan interface{}
-			step := func(name string, f func()) bool {
-				defer func() {
-					if rec := recover(); rec != nil {
-						pan = fmt.Sprintf("%s: %v", name, rec)
-					}
-				}()
-				f()
-				return true
+			if pool[1] > 0 {
+				init = init.Add(sdk.NewInt64Coin("bbb", pool[1]))
 			}
-			step("block with the proposal", func() {
-				t = t.Add(world.BlockStep)
-				c.Begin(t)
-				ctx := c.Ctx()
-				// submission dry run (inside a transaction in reality: a panic here is recovered)
-				func() {
-					defer func() { recover() }()
-					dry, _ := ctx.CacheContext()
-					if handler(dry, prop) == nil {
-						accepted = true
+			funder := world.NewAccount("funder")
+			base := world.NewChain("teleport_9000-10", world.StartTime, world.Options{
+				Accounts:   []string{"funder"},
+				ExtraCoins: map[string]sdk.Coins{"funder": sdk.NewCoins(sdk.NewInt64Coin("aaa", 9), sdk.NewInt64Coin("bbb", 9))},
+				GenesisMod: func(cdc codec.Codec, gs map[string]json.RawMessage) {
+					g := rvtypes.DefaultGenesisState()
+					g.Params.EnableVesting = true
+					g.Params.PerBlockReward = sdk.NewCoins(sdk.NewInt64Coin("aaa", 1))
+					if !init.IsZero() {
+						g.From = funder.Acc.String()
+						g.InitReward = init
 					}
-				}()
-				if accepted {
-					cctx, write := ctx.CacheContext()
-					if err := handler(cctx, prop); err == nil {
-						write()
+					if mode == "fee grant" {
+						g.Params.EnableVesting = false
 					}
-				}
-				c.End()
+					gs[rvtypes.ModuleName] = cdc.MustMarshalJSON(g)
+				},
 			})
-			if !accepted {
-				r.Outcome("parameter value refused by the parameter validators")
-				continue
-			}
-			nontrivial++
-			for i := 0; i < 3 && pan == nil; i++ {
-				step(fmt.Sprintf("block %d after the change", i+1), func() {
-					t = t.Add(world.BlockStep)
-					c.Block(t)
-				})
-			}
-			desc := fmt.Sprintf("%s/%s=%s with vesting pool aaa=%d bbb=%d", ch.Subspace, ch.Key, ch.Value, pool[0], pool[1])
-			if pan != nil {
-				kind := "other"
-				if strings.Count(ch.Value, `"aaa"`) > 1 || strings.Count(ch.Value, `"bbb"`) > 1 {
-					kind = "duplicate-reward-denomination"
+			now := world.StartTime
+			if mode == "fee grant" {
+				// an ordinary account sits at the module's address before any module account exists there: a fee grant naming
+				// the address as grantee creates a plain account (bank transfers to module addresses are refused, fee grants
+				// are not), vesting still switched off; the pool can then not be funded, so the empty pool is the only one
+				if !init.IsZero() {
+					continue
 				}
-				r.Violation("C15:block-processing-panics-after-accepted-parameter-change/"+ch.Subspace+"."+ch.Key+"/"+kind, fmt.Sprintf("%s: %v", desc, pan), map[string]interface{}{"engine": "c15-params", "change": ch, "pool": pool})
-				r.Outcome("accepted parameter value: block processing PANICS")
-			} else {
-				r.Outcome("accepted parameter value: blocks processed")
+				now = now.Add(world.BlockStep)
+				grant, err := feegrant.NewMsgGrantAllowance(&feegrant.BasicAllowance{}, funder.Acc, authtypes.NewModuleAddress(rvtypes.ModuleName))
+				if err != nil {
+					panic(err)
+				}
+				res := base.Block(now, base.CosmosTx(base.Accounts["funder"], grant))
+				acc := base.App.AccountKeeper.GetAccount(base.ReadCtx(), authtypes.NewModuleAddress(rvtypes.ModuleName))
+				_, isModule := acc.(authtypes.ModuleAccountI)
+				r.Outcome(fmt.Sprintf("fee grant naming the vesting module's address as grantee: accepted=%v, account there=%v, module account=%v", res[0].OK(), acc != nil, isModule))
 			}
-			if evals%37 == 1 {
-				r.Sample(desc)
+			for _, ch := range changes {
+				c := base.Clone()
+				t := now
+				prop := paramproposal.NewParameterChangeProposal("t", "d", []paramproposal.ParamChange{ch})
+				evals++
+				if prop.ValidateBasic() != nil {
+					r.Outcome("parameter change refused by stateless validation")
+					continue
+				}
+				handler := c.App.GovKeeper.Router().GetRoute(prop.ProposalRoute())
+				accepted := false
+				var pan interface{}
+				step := func(name string, f func()) bool {
+					defer func() {
+						if rec := recover(); rec != nil {
+							pan = fmt.Sprintf("%s: %v", name, rec)
+						}
+					}()
+					f()
+					return true
+				}
+				step("block with the proposal", func() {
+					t = t.Add(world.BlockStep)
+					c.Begin(t)
+					ctx := c.Ctx()
+					// submission dry run (inside a transaction in reality: a panic here is recovered)
+					func() {
+						defer func() { recover() }()
+						dry, _ := ctx.CacheContext()
+						if handler(dry, prop) == nil {
+							accepted = true
+						}
+					}()
+					if accepted {
+						cctx, write := ctx.CacheContext()
+						if err := handler(cctx, prop); err == nil {
+							write()
+						}
+					}
+					c.End()
+				})
+				if !accepted {
+					r.Outcome("parameter value refused by the parameter validators")
+					continue
+				}
+				nontrivial++
+				for i := 0; i < 3 && pan == nil; i++ {
+					step(fmt.Sprintf("block %d after the change", i+1), func() {
+						t = t.Add(world.BlockStep)
+						c.Block(t)
+					})
+				}
+				desc := fmt.Sprintf("%s/%s=%s with vesting pool aaa=%d bbb=%d (pool account created by %s)", ch.Subspace, ch.Key, ch.Value, pool[0], pool[1], mode)
+				if pan != nil {
+					kind := "other"
+					if strings.Count(ch.Value, `"aaa"`) > 1 || strings.Count(ch.Value, `"bbb"`) > 1 {
+						kind = "duplicate-reward-denomination"
+					}
+					r.Violation("C15:block-processing-panics-after-accepted-parameter-change/"+ch.Subspace+"."+ch.Key+"/"+kind, fmt.Sprintf("%s: %v", desc, pan), map[string]interface{}{"engine": "c15-params", "change": ch, "pool": pool, "pool_account_created_by": mode})
+					r.Outcome("accepted parameter value: block processing PANICS")
+				} else {
+					r.Outcome("accepted parameter value: blocks processed")
+				}
+				if evals%37 == 1 {
+					r.Sample(desc)
+				}
 			}
 		}
 	}
@@ -119,14 +147,14 @@ func paramsRun(r *ev.Run, changes []paramproposal.ParamChange, pools [][2]int64)
 func genesis(r *ev.Run) (evals, nontrivial int64) {
 	c := world.NewChain("teleport_9000-10", world.StartTime, world.Options{Accounts: []string{"funder"}})
 	coins := map[string]sdk.Coins{
-		"default":               rvtypes.DefaultParams().PerBlockReward,
-		"empty":                 {},
-		"nil":                   nil,
-		"zero amount":           {sdk.Coin{Denom: "aaa", Amount: sdk.ZeroInt()}},
-		"duplicate denom":       {sdk.NewInt64Coin("aaa", 1), sdk.NewInt64Coin("aaa", 2)},
-		"unsorted":              {sdk.NewInt64Coin("bbb", 1), sdk.NewInt64Coin("aaa", 2)},
-		"negative":              {sdk.Coin{Denom: "aaa", Amount: sdk.NewInt(-1)}},
-		"empty denom":           {sdk.Coin{Denom: "", Amount: sdk.NewInt(1)}},
+		"default":         rvtypes.DefaultParams().PerBlockReward,
+		"empty":           {},
+		"nil":             nil,
+		"zero amount":     {sdk.Coin{Denom: "aaa", Amount: sdk.ZeroInt()}},
+		"duplicate denom": {sdk.NewInt64Coin("aaa", 1), sdk.NewInt64Coin("aaa", 2)},
+		"unsorted":        {sdk.NewInt64Coin("bbb", 1), sdk.NewInt64Coin("aaa", 2)},
+		"negative":        {sdk.Coin{Denom: "aaa", Amount: sdk.NewInt(-1)}},
+		"empty denom":     {sdk.Coin{Denom: "", Amount: sdk.NewInt(1)}},
 	}
 	for name, reward := range coins {
 		for _, enable := range []bool{false, true} {
@@ -184,6 +212,58 @@ func genesis(r *ev.Run) (evals, nontrivial int64) {
 			r.Violation("C15:validated-genesis-panics-on-init/aggregate/"+strings.ReplaceAll(name, " ", "-"), fmt.Sprint(pan), nil)
 		} else {
 			r.Outcome("validated aggregate genesis initialises")
+		}
+	}
+	// xibc: client-module genesis states (relayer registry shapes, native chain names) and packet-module states
+	{
+		good := world.NewAccount("gen-relayer").Acc.String()
+		type rel = clienttypes.IdentifiedRelayer
+		relayers := []struct {
+			name string
+			rs   []rel
+		}{
+			{"none", nil},
+			{"one well formed", []rel{{Address: good, Chains: []string{"bsc"}, Addresses: []string{"0xabc"}}}},
+			{"empty relayer address", []rel{{Address: "", Chains: []string{"bsc"}, Addresses: []string{"0xabc"}}}},
+			{"relayer address not bech32", []rel{{Address: "nobody", Chains: []string{"bsc"}, Addresses: []string{"0xabc"}}}},
+			{"more chains than addresses", []rel{{Address: good, Chains: []string{"bsc", "eth"}, Addresses: []string{"0xabc"}}}},
+			{"more addresses than chains", []rel{{Address: good, Chains: []string{"bsc"}, Addresses: []string{"0xabc", "0xdef"}}}},
+			{"no chains", []rel{{Address: good}}},
+			{"empty chain name", []rel{{Address: good, Chains: []string{""}, Addresses: []string{"0xabc"}}}},
+			{"empty counterparty address", []rel{{Address: good, Chains: []string{"bsc"}, Addresses: []string{""}}}},
+			{"same relayer twice", []rel{{Address: good, Chains: []string{"bsc"}, Addresses: []string{"0xabc"}}, {Address: good, Chains: []string{"eth"}, Addresses: []string{"0xdef"}}}},
+		}
+		for _, rc := range relayers {
+			for _, native := range []string{"teleport", "", "x", "a/b", " teleport"} {
+				cg := clienttypes.DefaultGenesisState()
+				cg.Relayers = rc.rs
+				cg.NativeChainName = native
+				g := &xibctypes.GenesisState{ClientGenesis: cg, PacketGenesis: packettypes.DefaultGenesisState()}
+				evals++
+				valid := false
+				func() {
+					defer func() { recover() }()
+					valid = g.Validate() == nil
+				}()
+				if !valid {
+					r.Outcome("xibc genesis refused by its validation")
+					continue
+				}
+				nontrivial++
+				fresh := world.NewChain("teleport_9000-10", world.StartTime, world.Options{Accounts: []string{"funder"}})
+				var pan interface{}
+				func() {
+					defer func() { pan = recover() }()
+					ctx, _ := fresh.ReadCtx().CacheContext()
+					xibc.InitGenesis(ctx, *fresh.App.XIBCKeeper, false, g)
+				}()
+				if pan != nil {
+					r.Violation("C15:validated-genesis-panics-on-init/xibc/"+strings.ReplaceAll(rc.name, " ", "-"), fmt.Sprintf("xibc genesis {relayers: %s, native chain name %q} passes Validate and panics in InitGenesis: %v", rc.name, native, pan), map[string]interface{}{"engine": "c15-genesis", "relayers": rc.name, "native_chain_name": native})
+					r.Outcome("validated xibc genesis PANICS on init")
+				} else {
+					r.Outcome("validated xibc genesis initialises")
+				}
+			}
 		}
 	}
 	return
